@@ -45,7 +45,7 @@ impl Labels {
 		Ok(*self.get_or_add_unchecked(pc))
 	}
 
-	fn get_or_create_check_exclusive(&mut self, pc: u16) -> Result<Label> {
+	pub(crate) fn get_or_create_check_exclusive(&mut self, pc: u16) -> Result<Label> {
 		//TODO: consider making Label an enum that contains a "end-of-code" variant instead of doing that
 		// last_label stuff, tho only when the size of a Label can remain the size of an u16
 		if pc > self.code_length {
